@@ -20,6 +20,7 @@ type replayFile struct {
 	Pkg        string   `json:"pkg"`
 	IntMode    bool     `json:"int_mode"`
 	Obligation ObResult `json:"obligation"`
+	Repeat     int      `json:"repeat"`
 }
 
 // parseModelValue converts an SMT value to int64 (two's complement for bit-vectors).
@@ -137,10 +138,21 @@ func runReplayPkg(pkg string, cases []*replayFile, idxs []int, workDir string) s
 	}
 	var sb strings.Builder
 	fmt.Fprintf(&sb, "package %s\n\nimport (\n\t\"fmt\"\n\t\"os\"\n\t\"testing\"\n\t\"time\"\n)\n\n", pkgName)
-	sb.WriteString(`func vReplayCase(i int, model map[string]int64, f func()) {
+	sb.WriteString(`func vReplayCase(i int, model map[string]int64, f func(), repeat int) {
+	for r := 0; r < repeat; r++ {
+		if vReplayOnce(i, model, f, r == repeat-1) {
+			return
+		}
+	}
+}
+
+// vReplayOnce runs the harness once; it reports (and returns true) when something went wrong or on the last try.
+func vReplayOnce(i int, model map[string]int64, f func(), last bool) bool {
 	vModel = model
 	vFailures = nil
 	vCovered = map[string]bool{}
+	vGhost = map[string][]int64{}
+	vGhostF = map[string][]float64{}
 	done := make(chan string, 1)
 	go func() {
 		defer func() {
@@ -156,18 +168,25 @@ func runReplayPkg(pkg string, cases []*replayFile, idxs []int, workDir string) s
 		f()
 		done <- "RETURNED"
 	}()
+	end := ""
 	select {
 	case r := <-done:
-		fmt.Fprintf(os.Stderr, "VREPLAY-CASE %d END %s\n", i, r)
-	case <-time.After(8 * time.Second):
-		fmt.Fprintf(os.Stderr, "VREPLAY-CASE %d END HANG\n", i)
+		end = r
+	case <-time.After(5 * time.Second):
+		end = "HANG"
 	}
+	bad := end != "RETURNED" || len(vFailures) > 0
+	if !bad && !last {
+		return false
+	}
+	fmt.Fprintf(os.Stderr, "VREPLAY-CASE %d END %s\n", i, end)
 	for _, f := range vFailures {
 		fmt.Fprintf(os.Stderr, "VREPLAY-CASE %d FAIL %s\n", i, f)
 	}
 	for c := range vCovered {
 		fmt.Fprintf(os.Stderr, "VREPLAY-CASE %d COVER %s\n", i, c)
 	}
+	return true
 }
 
 func TestVReplay(t *testing.T) {
@@ -188,7 +207,11 @@ func TestVReplay(t *testing.T) {
 				fmt.Fprintf(&sb, "%q: %d, ", k, n)
 			}
 		}
-		fmt.Fprintf(&sb, "}, %s)\n", rf.Func)
+		rep := rf.Repeat
+		if rep < 1 || rf.Obligation.Class == "cover" {
+			rep = 1
+		}
+		fmt.Fprintf(&sb, "}, %s, %d)\n", rf.Func, rep)
 	}
 	sb.WriteString("}\n")
 	testFile := filepath.Join(workDir, "zz_verif_replay_test.go")
